@@ -503,6 +503,11 @@ def rule_r3(ctx) -> List[R.Inst]:
         insts.append(R.ok(rid, "filter-independence", file, fn.node.lineno, idiom="each filter is applied under its own presence test"))
     if flt == want:
         insts.append(R.ok(rid, "filter-fields", file, fn.node.lineno, idiom="combo filter on columns, type filter on types"))
+    elif not set(flt) <= set(want) or any(v is None for v in flt.values()):
+        # the filters are called through other names (a table of (field, filter) pairs, a loop): which one sees which field is not read
+        insts.append(R.undec(rid, "filter-fields", file, fn.node.lineno,
+                             f"filters are applied through {sorted(set(flt) - set(want)) or sorted(flt)} on a computed field: which filter sees "
+                             f"which field is not followed"))
     else:
         insts.append(R.viol(rid, "filter-fields", file, fn.node.lineno,
                             f"filters are applied to {flt}; the column filter must see the columns and the type filter the types",
@@ -672,6 +677,8 @@ def rule_r5(ctx) -> List[R.Inst]:
     app = [n for n in ast.walk(lp) if isinstance(n, ast.Call) and call_name(n) == "append" and n.args]
     if app and elem in {x.id for x in ast.walk(app[0].args[0]) if isinstance(x, ast.Name)} and "freedom_delta" in unparse(app[0].args[0]):
         insts.append(R.ok(rid, "repeat:apply", file, app[0].lineno, idiom=f"{elem} + shifts"))
+    elif dl is None and app:
+        insts.append(R.undec(rid, "repeat:apply", file, app[0].lineno, "the shifts are computed in a form that is not recognised"))
     else:
         insts.append(R.viol(rid, "repeat:apply", file, (app[0] if app else lp).lineno,
                             "each base combo must be repeated at its own shifts", construct=unparse(app[0]) if app else ""))
